@@ -13,9 +13,10 @@
 
 use rosu_pp::taiko::verif as tv;
 
+#[cfg(feature = "p02")]
+use crate::grad::cases;
 use crate::{
     common::{decode, guarded, hash64, resource_maps, truncate_objects, Run, Settings},
-    grad::cases,
     rng::Rng,
 };
 
@@ -286,18 +287,23 @@ pub fn run(run: &mut Run, tier: &str, seed: u64, only: Option<&str>, thin: bool)
     };
     exhaustive(run, max_len, only);
     random_raw(run, &mut rng, n_raw, only);
-    // text maps through the real decoder / converter: native taiko and osu! → taiko
-    for c in cases(seed ^ 0x7a1c, n_maps, &[]) {
-        if c.mode != 1 {
-            continue;
+    // text maps through the real decoder / converter: native taiko and osu! → taiko (the thin stream
+    // of C05 leaves them out so that it does not depend on the C02 modules)
+    #[cfg(feature = "p02")]
+    if !thin {
+        for c in cases(seed ^ 0x7a1c, n_maps, &[]) {
+            if c.mode != 1 {
+                continue;
+            }
+            let id = format!("tkpre-{}", c.id);
+            if only.is_some_and(|o| !o.starts_with(&id)) {
+                continue;
+            }
+            let takes = [None, Some(rng.below(6) as u32), Some(rng.below(14) as u32)];
+            map_case(run, &id, &c.text, &c.settings, &takes);
         }
-        let id = format!("tkpre-{}", c.id);
-        if only.is_some_and(|o| !o.starts_with(&id)) {
-            continue;
-        }
-        let takes = [None, Some(rng.below(6) as u32), Some(rng.below(14) as u32)];
-        map_case(run, &id, &c.text, &c.settings, &takes);
     }
+    let _ = n_maps;
     for (mode, text) in resource_maps() {
         if mode > 1 {
             continue;
